@@ -77,7 +77,7 @@ def _append_post(s):
         (r.uid == m._max_uid) & (m._messages[r.uid] == r)
 
 
-append = Contract('C04', F, 'MailboxData.append',
+append = Contract('C04', F, 'MailboxData.append', globals=D.GLOBALS,
                   params=dict(self=MBX, append_msg=D.AppendMsg, recent=BOOL),
                   calls=D.BASE_CALLS, atomic=atomic(['self']),
                   ensures=[('returned_msg_has_fresh_max_uid', _append_post)],
@@ -204,10 +204,19 @@ def mutators_covered():
              f'functions writing _max_uid/_messages without a contract: {sorted(extra)}')]
 
 
+def _bounded():
+    from . import dict_harness as H
+    return [Bounded('dict MailboxData: UidInv / uids_grow / returned uid on reachable states',
+                    'every sequence of <= 2 (quick) / 3 (thorough) operations from {append x2, delete x2, update, copy, '
+                    'move} on a fresh real MailboxData, then every call of append/copy/move/delete with uids 101..103, '
+                    'self/other destination; the contract clauses evaluated on the observed pre/post state',
+                    H.bounded_mailbox([append, copy, move, delete]))]
+
+
 PROPERTY = Property(
     'C04', 'UIDs strictly increasing, never reused, truthfully reported',
     contracts=[append, copy, move, delete, snapshot_weak, snapshot_exact],
-    registry=REG,
+    registry=REG, bounded=_bounded(),
     structural=[Structural('NoYieldUnderLock', no_yield_under_lock),
                 Structural('mutators_covered', mutators_covered)],
     level='proof', design_ref='6 C04',
